@@ -105,8 +105,7 @@ CLAIMS = {
                  "Serializer + Deserializer for every type description and every value the JSON image can carry, by induction over nested descriptions; "
                  "integer targets are range-checked; the limits of the JSON image as theorems. Correspondence: the decoder model vs the library vs "
                  "serde_json on 39 target types x type-directed fitting and near-miss values (decoded values observed structurally), 43 types vs serde_json.",
-                 "5 (C14)", "Partial: that the decoder equals serde_json's on every input is by correspondence (both are third-party visitors); the map "
-                 "clause of the round trip covers key types whose order agrees with the order of the spelled keys."),
+                 "5 (C14)", "Partial: that the decoder equals serde_json's on every input is by correspondence (both are third-party visitors)."),
     "C15": claim("Theorems (Props/C15.v): lookup after any register/deregister/register-builtins history = latest live binding (custom functions "
                  "shadow builtins, fresh runtime empty, the 26 builtin names); call protocol (arguments left to right, exprefs unevaluated, lookup after "
                  "arguments, unknown-function at the call); custom functions receive the evaluated arguments and are validated first. "
@@ -116,7 +115,8 @@ CLAIMS = {
                  "results and initialises the default runtime once. The sync build instantiates Send+Sync; barrier-released threads compile and "
                  "search shared expressions/values incl. the first-use race.", "5 (C16)",
                  "Partial: memory-model data races, Arc and Once internals are outside the model."),
-    "C17": claim("Theorems (Props/C17.v): the specialised conversions agree with the generic serde path on every JSON-representable input. The "
+    "C17": claim("Theorems (Props/C17.v): the specialised conversions agree with the generic serde path on every JSON-representable input, hence searching a typed "
+                 "input gives the same outcome with and without `specialized` for every expression text; 128-bit integers are refused on every route. The "
                  "same case file runs through four builds (default, sync, nightly specialized, both) and is compared pairwise and with the model.",
                  "5 (C17)", "Partial: feature invisibility of sync is decided by running the builds. Known finding: non-finite floats differ."),
     "C18": claim("Theorems (Props/C18.v) about the jp model: success prints the pretty JSON (raw string with --unquoted) + newline and exits 0; "
